@@ -72,7 +72,7 @@ def run(names_path):
         return out if done else None
     tests = [
         ("w byte", lambda e: e["ev"] == "w" and len(e["bytes"]) >= 2 and e["pos"] > 45, lambda e: e["bytes"].__setitem__(0, (e["bytes"][0] + 1) % 256)),
-        ("align unit", lambda e: e["ev"] == "align" and e["unit"] > 1, lambda e: e.__setitem__("unit", e["unit"] * 2)),
+        ("align unit", lambda e: e["ev"] == "align" and e["unit"] > 1 and e["after"] > e["pos"], lambda e: e.__setitem__("unit", e["unit"] * 2)),
         ("row offset", lambda e: e["ev"] == "rows" and len(e["rows"]) > 9, lambda e: e["rows"][9].__setitem__("off", e["rows"][9]["off"] + 1)),
         ("returned count", lambda e: e["ev"] == "ret", lambda e: e.__setitem__("n", e["n"] + 1)),
         ("full value", lambda e: e["ev"] == "full" and e["val"] and e["val"][0] != [], lambda e: e.__setitem__("val", [[]])),
@@ -113,7 +113,7 @@ def run(names_path):
     ok &= good
     rtests = [
         ("read length", lambda e: e["ev"] == "rd" and e["pos"] > 45 and e["len"] >= 2, lambda e: e.__setitem__("len", e["len"] - 1)),
-        ("alignment unit", lambda e: e["ev"] == "ralign" and e["unit"] > 1, lambda e: e.__setitem__("unit", e["unit"] * 2)),
+        ("alignment unit", lambda e: e["ev"] == "ralign" and e["unit"] > 1 and e["after"] > e["pos"], lambda e: e.__setitem__("unit", e["unit"] * 2)),
         ("alignment skip", lambda e: e["ev"] == "ralign" and e["after"] > e["pos"], lambda e: e.__setitem__("after", e["pos"])),
         ("returned value", lambda e: e["ev"] == "rret" and e["val"] and e["val"][0] != [], lambda e: e.__setitem__("val", [[]])),
         ("final position", lambda e: e["ev"] == "rret", lambda e: e.__setitem__("rpos", e["rpos"] - 1)),
@@ -133,6 +133,8 @@ def run(names_path):
               for lo in ("load_full", "load_mem", "load_mmap", "mmap") for fl, ca, ty, ops, pr in
               ((0, "valid", "vec8", [], "absent"), (5, "valid", "canary", ["move", "box", "send"], "longer"),
                (2, "wrongtype", "vec64", [], "shorter"), (0, "empty", "vec8", [], "absent"), (7, "valid", "canary", ["arc2"], "absent"))]
+    lcases += [{"loader": "encase", "flags": 0, "cause": "valid", "ty": ty, "n": 5, "ops": ops, "prior": "absent"}
+               for ty, ops in (("vec64", []), ("canary", ["move", "box", "send"]), ("doc", ["arc2"]))]
     levents, _ = loadertrace.record(lcases, tag)
     lraw = [json.dumps(e) for e in levents]
     lcfg = os.path.join(WORK, tag, "tloader.cfg")
